@@ -6,7 +6,7 @@
 -/
 import KB.Lemmas.Compact
 namespace KB.C07
-open KB Generated
+open KB KB.Compact Generated
 
 /-- The internal keys successfully removed by a compaction pass at `R` over `recs` under `mask`
 (expiry off). -/
@@ -22,28 +22,75 @@ def after (R : Nat) (mask : Nat → DelOutcome) (recs : List Rec) : List Rec :=
 contract for `Del`); every other pattern of failures — and hence every crash point — is allowed. -/
 def NoCasOnDel (mask : Nat → DelOutcome) : Prop := ∀ i, mask i ≠ .failCas
 
-/-- Main theorem: whatever deletions succeed, fail, or are cut short, every read at every
-revision ≥ R of every key returns exactly what it returned before. -/
-theorem compact_preserves_reads {recs : List Rec} (hs : SortedRecs recs) (hw : WellKeyed recs)
+
+/-- the store after the pass -/
+def finalStore (R : Nat) (mask : Nat → DelOutcome) (recs : List Rec) : Store :=
+  (runDeletes mask { store := encodeStore recs } (workerActs { R := R, compact := true } recs)).store
+
+theorem mem_deleted_iff {R : Nat} {mask : Nat → DelOutcome} {recs : List Rec} {ik : Bytes} :
+    ik ∈ deleted R mask recs ↔ (∃ r ∈ recs, r.ik = ik) ∧ (finalStore R mask recs).get ik = none := by
+  simp only [deleted, finalStore, List.mem_map, List.mem_filter, Option.isNone_iff_eq_none]
+  constructor
+  · rintro ⟨r, ⟨hr, hn⟩, rfl⟩; exact ⟨⟨r, hr, rfl⟩, hn⟩
+  · rintro ⟨⟨r, hr, rfl⟩, hn⟩; exact ⟨r, ⟨hr, hn⟩, rfl⟩
+
+theorem deleted_deletable {recs : List Rec} (hs : SortedRecs recs) (hw : WellKeyed recs)
     (hk : ∀ r ∈ recs, Alphabet r.key ∧ r.rev < 2 ^ 64)
+    (R : Nat) (mask : Nat → DelOutcome) (r : Rec) (hr : r ∈ recs) (hd : r.ik ∈ deleted R mask recs) :
+    Deletable R recs r :=
+  compact_deletable hs hw hk R mask hr (mem_deleted_iff.1 hd).2
+
+/-- Without `hne` the two theorems below are false: the empty raw
+key is (vacuously) over the alphabet, and `lastFailed.length > 0` disables the skip for it. -/
+theorem empty_key_resurrects :
+    let recs : List Rec :=
+      [ { key := [], rev := 3, val := [1], ik := encode [] 3 },
+        { key := [], rev := 7, val := tombstone, ik := encode [] 7 } ]
+    let mask : Nat → DelOutcome := fun i => if i = 0 then .fail else .ok
+    SortedRecs recs ∧ WellKeyed recs ∧ (∀ r ∈ recs, Alphabet r.key ∧ r.rev < 2 ^ 64) ∧
+    readAt 9 recs [] = none ∧ readAt 9 (after 8 mask recs) [] = some ([1], 3) ∧
+    scanRecs 9 recs = [] ∧ scanRecs 9 (after 8 mask recs) = [([], [1], 3)] := by
+  decide
+
+theorem empty_key_mask_noCas : NoCasOnDel (fun i => if i = 0 then .fail else .ok) := by
+  intro i; show (if i = 0 then DelOutcome.fail else DelOutcome.ok) ≠ _; split <;> simp
+
+/-- Main theorem: whatever deletions succeed, fail, or are cut short, every read at every
+revision ≥ R of every key returns exactly what it returned before. (`hne`: raw keys are non-empty —
+for the empty raw key the statement is FALSE, see `empty_key_resurrects`: the
+`len(lastCompactFailedRawKey) > 0` guard never fires for it.) -/
+theorem compact_preserves_reads {recs : List Rec} (hs : SortedRecs recs) (hw : WellKeyed recs)
+    (hk : ∀ r ∈ recs, Alphabet r.key ∧ r.rev < 2 ^ 64) (hne : ∀ r ∈ recs, r.key ≠ [])
     (R : Nat) (mask : Nat → DelOutcome) (hm : NoCasOnDel mask) (R' : Nat) (hR : R ≤ R') (k : Bytes) :
     readAt R' (after R mask recs) k = readAt R' recs k := by
-  sorry
+  have hkeep : ∀ d ∈ recs, (!(deleted R mask recs).contains d.ik) = false ↔
+      (finalStore R mask recs).get d.ik = none := by
+    intro d hd
+    simp only [Bool.not_eq_false', List.contains_iff_mem, mem_deleted_iff]
+    exact ⟨fun h => h.2, fun h => ⟨⟨d, hd, rfl⟩, h⟩⟩
+  unfold after
+  apply readAt_filter hs _ R R' hR
+  · intro d hd hkd
+    exact compact_deletable hs hw hk R mask hd ((hkeep d hd).1 hkd)
+  · intro t ht hkt htomb hpos w hw' hwk h0 hlt
+    rw [hkeep w hw']
+    exact compact_tombClosed hs hw hk hne R hm t ht ((hkeep t ht).1 hkt) htomb hpos w hw' hwk h0 hlt
 
 /-- Range form of the same statement. -/
 theorem compact_preserves_scan {recs : List Rec} (hs : SortedRecs recs) (hw : WellKeyed recs)
-    (hk : ∀ r ∈ recs, Alphabet r.key ∧ r.rev < 2 ^ 64)
+    (hk : ∀ r ∈ recs, Alphabet r.key ∧ r.rev < 2 ^ 64) (hne : ∀ r ∈ recs, r.key ≠ [])
     (R : Nat) (mask : Nat → DelOutcome) (hm : NoCasOnDel mask) (R' : Nat) (hR : R ≤ R') :
-    scanRecs R' (after R mask recs) = scanRecs R' recs := by
-  sorry
+    scanRecs R' (after R mask recs) = scanRecs R' recs :=
+  scan_filter_of_readAt hs _ R'
+    (fun k => compact_preserves_reads hs hw hk hne R mask hm R' hR k)
 
 /-- Only records at or below R are ever removed, and a removed version is either superseded by a
 newer version ≤ R of the same key or is a deletion marker / a deleted key's index record. -/
 theorem deleted_only_le_R {recs : List Rec} (hs : SortedRecs recs) (hw : WellKeyed recs)
     (hk : ∀ r ∈ recs, Alphabet r.key ∧ r.rev < 2 ^ 64)
     (R : Nat) (mask : Nat → DelOutcome) (r : Rec) (hr : r ∈ recs) (hd : r.ik ∈ deleted R mask recs) :
-    r.rev ≤ R := by
-  sorry
+    r.rev ≤ R :=
+  (deleted_deletable hs hw hk R mask r hr hd).1
 
 /-- A live key (index record of 8 bytes, newest version not a tombstone) keeps its index record and
 its newest version: it stays writable with normal compare-and-swap semantics. -/
@@ -53,7 +100,13 @@ theorem live_key_untouched {recs : List Rec} (hs : SortedRecs recs) (hw : WellKe
     (hlive : (r.rev = 0 ∧ r.val.length = 8) ∨
              (0 < r.rev ∧ ¬ isTomb r.val = true ∧ ∀ r' ∈ recs, r'.key = r.key → r'.rev ≤ r.rev)) :
     r.ik ∉ deleted R mask recs := by
-  sorry
+  intro hd
+  obtain ⟨_, h0, hpos⟩ := deleted_deletable hs hw hk R mask r hr hd
+  rcases hlive with ⟨h1, h2⟩ | ⟨h1, h2, h3⟩
+  · have := h0 h1; omega
+  · rcases hpos h1 with h | ⟨r', hr', hkey, hlt, _⟩
+    · exact h2 h
+    · have := h3 r' hr' hkey; omega
 
 /-- With a CAS error on an unconditional delete the property is FALSE of the loop (documented engine
 assumption): the older version's delete "fails" without being remembered, the tombstone goes, and the
